@@ -440,14 +440,20 @@ impl<'ast> LoweringContext<'ast> {
         self.errors.set_subitem(ast_trait_method.name.as_str());
         let name = ast_trait_method.name.clone();
         let self_param_ltl = SelfParamLifetimeLowerer::new(&ast_trait_method.lifetimes, self)?;
-        let (param_self, mut param_ltl) =
-            if let Some(self_param) = ast_trait_method.self_param.as_ref() {
-                let (param_self, param_ltl) =
-                    self.lower_trait_self_param(self_param, self_param_ltl, in_path)?;
-                (Some(param_self), param_ltl)
-            } else {
-                (None, SelfParamLifetimeLowerer::no_self_ref(self_param_ltl))
-            };
+        let (param_self, mut param_ltl) = if let Some(self_param) =
+            ast_trait_method.self_param.as_ref()
+        {
+            let (param_self, param_ltl) =
+                self.lower_trait_self_param(self_param, self_param_ltl, in_path)?;
+            (Some(param_self), param_ltl)
+        } else {
+            // The foreign implementation of a trait is a vtable of callbacks that all receive the
+            // implementor's data pointer; the generated `impl Trait` reaches it through `self`
+            self.errors.push(LoweringError::Other(format!(
+                "Trait method {name} does not take self: trait methods must have a self parameter"
+            )));
+            return Err(());
+        };
 
         let params =
             self.lower_many_callback_params(&ast_trait_method.params, &mut param_ltl, in_path)?;
